@@ -24,7 +24,7 @@ from concurrent.futures import ThreadPoolExecutor
 from . import common
 from . import c01_corpus as corpus
 
-LEAN_TARGETS = ["TsrunVerif.Props.C01"]
+LEAN_TARGETS = ["TsrunVerif.Props.C01", "TsrunVerif.Props.C01Parse"]
 THEOREMS = ["TsrunVerif.Ops." + t for t in [
     "numEq_symm", "strictEq_symm", "looseEq_symm", "looseEq_of_strictEq", "nan_never_equal", "null_looseEq_iff", "typeOf_closed",
     "plus_string_left", "plus_string_right", "add_comm", "neg_neg", "lt_irrefl", "nan_relational_false", "not_not",
@@ -32,8 +32,13 @@ THEOREMS = ["TsrunVerif.Ops." + t for t in [
     "toInt32_range", "toUint32_toInt32", "bitor_zero", "double_not", "ushr_zero_idem", "bitwise_comm", "shift_count_mod32"]] + \
     ["TsrunVerif.Ctl." + t for t in [
         "finally_normal_keeps_pending", "finally_abrupt_overrides", "catch_binds_thrown", "loop_break_own_label",
-        "loop_break_foreign_label", "tdz_shadows_outer"]]
+        "loop_break_foreign_label", "tdz_shadows_outer"]] + \
+    ["TsrunVerif.Pratt." + t for t in [
+        "parse_wellformed", "parse_minimal_parens", "parse_order_iso", "table_is_spec", "gen_spec_order", "gen_spec_assoc", "gen_parses_as_spec"]]
 ASSUMPTIONS = [
+    "M-Pratt transcribes parse_binary_expression / parse_unary_expression (binary and logical operators, prefix operators, parentheses) over abstract tokens; the operator table, the loop's break test, the next_prec rule and the logical/unary "
+    "mappings are re-extracted from src/parser.rs on every run (Gen/Precedence.lean). ECMA-262's early errors for `a ?? b || c` and `-a ** b` (tsrun accepts both: a superset, outside 'well-formed programs') are excluded from the specification comparison; "
+    "`a < b > (c)` (TypeScript type arguments, C03) and call/regex/assertion positions are outside the fragment; conditional, assignment, comma, postfix and member/call levels are covered by the reference-engine differential only",
     "M-Ops is a transcription of ECMA-262 (ToBoolean, ToNumber, ToString, typeof, unary + - !, Number::add/subtract/multiply, IsLessThan, IsLooselyEqual, IsStrictlyEqual, "
     "ApplyStringOrNumericBinaryOperator for +, the short-circuit operators) over undefined, null, booleans, ASCII strings and the numbers NaN, +-Infinity, -0 and integers below 2^53 "
     "(arithmetic exact there); string-to-number covers decimal integers, 0x hex, Infinity and whitespace trimming. Objects, symbols, bigint, fractions and / % ** are not in the model "
@@ -391,6 +396,182 @@ def part_programs(ctx, ref):
     ctx.notes.append("programs: %d feature programs (%d without reference)" % (len(progs), miss))
 
 
+# ---------------------------------------------------------------- operator grammar (M-Pratt)
+BIN_TEXT = {"PipePipe": "||", "AmpAmp": "&&", "QuestionQuestion": "??", "Pipe": "|", "Caret": "^", "Amp": "&", "EqEq": "==", "BangEq": "!=",
+            "EqEqEq": "===", "BangEqEq": "!==", "Lt": "<", "LtEq": "<=", "Gt": ">", "GtEq": ">=", "In": "in", "Instanceof": "instanceof",
+            "LtLt": "<<", "GtGt": ">>", "GtGtGt": ">>>", "Plus": "+", "Minus": "-", "Star": "*", "Slash": "/", "Percent": "%", "StarStar": "**"}
+UN_TEXT = {"Minus": "-", "Plus": "+", "Bang": "!", "Tilde": "~", "Typeof": "typeof", "Void": "void"}
+NODE_TEXT = {"Or": "||", "And": "&&", "NullishCoalescing": "??", "BitOr": "|", "BitXor": "^", "BitAnd": "&", "Eq": "==", "NotEq": "!=", "StrictEq": "===",
+             "StrictNotEq": "!==", "Lt": "<", "LtEq": "<=", "Gt": ">", "GtEq": ">=", "In": "in", "Instanceof": "instanceof", "LShift": "<<", "RShift": ">>",
+             "URShift": ">>>", "Add": "+", "Sub": "-", "Mul": "*", "Div": "/", "Mod": "%", "Exp": "**",
+             "Minus": "-", "Plus": "+", "Not": "!", "BitNot": "~", "Typeof": "typeof", "Void": "void"}
+ATOM_VALUES = ["3", "-2", "0", "7", "1.5", "'4'", "null", "true"]
+
+
+def gen_expr_tokens(rng, depth):
+    """random expression as a list of token names (parentheses placed at random: the parser decides the tree)"""
+    if depth <= 0 or rng.random() < 0.22:
+        return ["a%d" % rng.randrange(8)]
+    r = rng.random()
+    if r < 0.14:
+        return [rng.choice(list(UN_TEXT))] + gen_expr_tokens(rng, depth - 1)
+    if r < 0.30:
+        return ["LP"] + gen_expr_tokens(rng, depth - 1) + ["RP"]
+    op = rng.choice(list(BIN_TEXT)) if rng.random() < 0.7 else rng.choice(["Plus", "Minus", "Star", "StarStar", "Lt", "AmpAmp", "PipePipe", "EqEqEq", "Pipe", "LtLt"])
+    return gen_expr_tokens(rng, depth - 1) + [op] + gen_expr_tokens(rng, depth - 1)
+
+
+def render_tokens(toks):
+    return " ".join("(" if t == "LP" else ")" if t == "RP" else BIN_TEXT.get(t) or UN_TEXT.get(t) or t for t in toks)
+
+
+def render_tokens_ctx(toks):
+    """token names -> text; a name that is both prefix and binary (Plus/Minus) has one spelling anyway"""
+    return render_tokens(toks)
+
+
+def sexpr(text):
+    """parse the S-expression printed by the model / the harness -> nested lists"""
+    toks = text.replace("(", " ( ").replace(")", " ) ").split()
+    def rd(i):
+        if toks[i] == "(":
+            out, i = [], i + 1
+            while toks[i] != ")":
+                x, i = rd(i)
+                out.append(x)
+            return out, i + 1
+        return toks[i], i + 1
+    try:
+        t, i = rd(0)
+        return t if i == len(toks) else None
+    except IndexError:
+        return None
+
+
+def spec_early_error(t):
+    """ECMA-262 rejects `a ?? b || c` / `a || b ?? c` without parentheses and a unary operand of `**`: outside 'well-formed programs'"""
+    if not isinstance(t, list):
+        return False
+    if t[0] == "B":
+        l, r = t[2], t[3]
+        def top(x):
+            return x[1] if isinstance(x, list) and x[0] == "B" else None
+        if t[1] == "NullishCoalescing" and (top(l) in ("Or", "And") or top(r) in ("Or", "And")):
+            return True
+        if t[1] in ("Or", "And") and (top(l) == "NullishCoalescing" or top(r) == "NullishCoalescing"):
+            return True
+        if t[1] == "Exp" and isinstance(l, list) and l[0] == "U":
+            return True
+        return spec_early_error(l) or spec_early_error(r)
+    return any(spec_early_error(x) for x in t[1:])
+
+
+def full_parens(t):
+    if not isinstance(t, list):
+        return t
+    if t[0] == "P":
+        return full_parens(t[1])
+    if t[0] == "U":
+        return "(%s %s)" % (NODE_TEXT[t[1]], full_parens(t[2]))
+    return "(%s %s %s)" % (full_parens(t[2]), NODE_TEXT[t[1]], full_parens(t[3]))
+
+
+def ts_ambiguous(toks):
+    """`a < b > ( c )` is a call with type arguments in TypeScript (C03's subject), not a comparison chain"""
+    for i, t in enumerate(toks[:-1]):
+        if t in ("Gt", "GtGt", "GtGtGt") and toks[i + 1] == "LP" and "Lt" in toks[:i]:
+            return True
+    return False
+
+
+def part_grammar(ctx, ref):
+    """CORR: the model with the table REGENERATED from parser.rs == the real parser; PROP: the real parser == the model with
+    the SPECIFICATION's table, and the text evaluates like its fully parenthesised specification tree"""
+    n = 3000 if ctx.tier == "quick" else 40000
+    rng = ctx.rng
+    cases = [["a0", "Minus", "a1", "Minus", "a2"], ["a0", "StarStar", "a1", "StarStar", "a2"], ["a0", "Plus", "a1", "Star", "a2"],
+             ["a0", "PipePipe", "a1", "AmpAmp", "a2"], ["a0", "Pipe", "a1", "Caret", "a2", "Amp", "a3"], ["a0", "EqEqEq", "a1", "Lt", "a2", "LtLt", "a3", "Plus", "a4"],
+             ["Minus", "a0", "StarStar", "a1"], ["a0", "QuestionQuestion", "a1", "PipePipe", "a2"], ["Typeof", "a0", "EqEqEq", "a1"],
+             ["a0", "In", "a1", "Instanceof", "a2"], ["Bang", "a0", "In", "a1"], ["a0", "Star", "LP", "a1", "Plus", "a2", "RP"]]
+    # every ordered pair of operators without parentheses: a op1 b op2 c (exhaustive over the 25 x 25 table)
+    for o1 in BIN_TEXT:
+        for o2 in BIN_TEXT:
+            cases.append(["a0", o1, "a1", o2, "a2"])
+    while len(cases) < n:
+        t = gen_expr_tokens(rng, rng.randrange(1, 7))
+        if len(t) <= 60:
+            cases.append(t)
+    # malformed stream: drop / duplicate / swap one token of a valid expression (no '<' or '/' in operand position: TS assertions, regex literals)
+    bad = []
+    while len(bad) < n // 6:
+        t = list(gen_expr_tokens(rng, rng.randrange(1, 5)))
+        i = rng.randrange(len(t))
+        k = rng.randrange(3)
+        if k == 0:
+            del t[i]
+        elif k == 1:
+            t.insert(i, rng.choice(["RP", "Star", "Percent", "Caret", "RP", "EqEq"]))
+        else:
+            t.append(rng.choice(["Star", "Plus", "LP", "AmpAmp"]))
+        if t:
+            bad.append(t)
+    def operand_position_hazard(t):
+        prev = None
+        for x in t:
+            if x in ("Lt", "Slash") and (prev is None or prev == "LP" or prev in BIN_TEXT or prev in UN_TEXT):
+                return True
+            if x == "LP" and prev is not None and (prev == "RP" or prev.startswith("a")):
+                return True         # `f ( x )` is a call: outside the operator fragment
+            prev = x
+        return False
+    cases = [c for c in cases + bad if not ts_ambiguous(c) and not operand_position_hazard(c)]
+    texts = [render_tokens(c) for c in cases]
+    names = [" ".join(c) for c in cases]
+    gen = common.driver(["pratt"], ["gen\t" + x for x in names])
+    spec = common.driver(["pratt"], ["spec\t" + x for x in names])
+    got = common.harness(["pratt"], texts)
+    forms, hist = [], {"error": 0, "ok": 0, "spec_early_error": 0}
+    for c, txt, g, sp, im in zip(cases, texts, gen, spec, got):
+        ctx.cov["evaluations"] += 1
+        ctx.cov["traces_validated_against_impl"] += 1
+        if g in ("bad-token", "bad-case"):
+            ctx.corr_fail("M-Pratt driver rejected a generated case", txt, g, im)
+            continue
+        if g != im:
+            ctx.corr_fail("M-Pratt (table regenerated from parser.rs) differs from the real parser", txt, g, im)
+        tree = sexpr(sp) if sp != "error" else None
+        if sp != "error" and tree is None:
+            ctx.corr_fail("M-Pratt spec output malformed", txt, sp, im)
+            continue
+        if tree is not None and spec_early_error(tree):
+            hist["spec_early_error"] += 1
+            continue
+        hist["error" if sp == "error" else "ok"] += 1
+        if sp != im:
+            ctx.prop_fail("grammar: the parser groups operators differently from ECMA-262's operator table",
+                          {"expr": txt, "tsrun": im[:600], "ref": sp[:600], "tokens": " ".join(c)})
+        elif tree is not None and len(forms) < (600 if ctx.tier == "quick" else 6000) and any(x in BIN_TEXT for x in c):
+            forms.append((txt, full_parens(tree)))
+    # the text must evaluate like its fully parenthesised tree (compiler honours the tree the parser built)
+    wrap = "((a0,a1,a2,a3,a4,a5,a6,a7)=>(%s))(" + ",".join(ATOM_VALUES) + ")"
+    exprs = [wrap % x for f in forms for x in f]
+    vals = eval_exprs(run_tsrun, exprs, size=100)
+    for i, (a, b) in enumerate(forms):
+        ctx.cov["evaluations"] += 1
+        va, vb = vals[2 * i], vals[2 * i + 1]
+        if va != vb:
+            ctx.prop_fail("grammar: an expression and its fully parenthesised form evaluate differently",
+                          {"expr": a + "   ~   " + b, "tsrun": va[:300] + "   ~   " + vb[:300], "ref": "(equal)"})
+    ctx.cov["distinct_nontrivial"] += len(set(spec))
+    ctx.notes.append("grammar: %d token lists (625 operator pairs exhaustively, %d malformed); spec verdicts %s; %d evaluated against their fully parenthesised form"
+                     % (len(cases), len(bad), json.dumps(hist, sort_keys=True), len(forms)))
+
+
+def pre_proof(ctx):
+    rc, out = common.sh([os.path.join(common.ROOT, "bin", "extract")])
+    ctx.notes.append("bin/extract: " + out.strip())
+
+
 def run(ctx):
     ctx.cov["rule"] = ("CORR: M-Ops / M-Ctl (Lean) == tsrun on every generated case, and == the reference engine when one is present; "
                        "PROP: tsrun == reference engine (node, else golden outputs recorded from node) on operators x operand shapes, library calls and feature programs, "
@@ -400,6 +581,7 @@ def run(ctx):
     ref = Reference(ctx)
     part_ops(ctx, ref)
     part_ctl(ctx, ref)
+    part_grammar(ctx, ref)
     part_operators(ctx, ref)
     part_library(ctx, ref)
     part_forms(ctx, ref)
